@@ -81,6 +81,8 @@ struct VAtomic {
 // the relative timeout the library last handed to the condition variable, in nanoseconds (-1: none / an absolute deadline): "waitFor returns false
 // only after its timeout" needs the library to wait at least as long as its caller asked for (time itself is a nondeterministic stub)
 static long long g_vf_wait_ns = -1;
+static void (*g_vf_on_timeout)() = nullptr;      // harness hook: called (with the mutex re-acquired) whenever a timed wait of the instrumented condition variable times out
+static inline bool vf_cv_wait_for_h(const void * cv, const void * m) { bool r = vf_cv_wait_for(cv, m); if(! r && g_vf_on_timeout) g_vf_on_timeout(); return r; }
 template <class Rep, class Period> static inline void vf_note_wait(const std::chrono::duration<Rep, Period> & d) { g_vf_wait_ns = (long long)std::chrono::duration_cast<std::chrono::nanoseconds>(d).count(); }
 struct VCondVar {
 	void notify_one() noexcept { vf_cv_notify_one(this); }
@@ -94,7 +96,7 @@ struct VCondVar {
 	bool wait_for(Lock & lock, const std::chrono::duration<Rep, Period> & d, Predicate pred) {
 		vf_note_wait(d);
 		while(! pred()) {
-			if(! vf_cv_wait_for(this, lock.mutex())) return pred();
+			if(! vf_cv_wait_for_h(this, lock.mutex())) return pred();
 		}
 		return true;
 	}
@@ -102,14 +104,14 @@ struct VCondVar {
 	// is "whenever the engine decides the timeout fires" (time is a nondeterministic stub)
 	template <class Lock> void wait(Lock & lock) { vf_cv_wait(this, lock.mutex()); }
 	template <class Lock, class Rep, class Period>
-	std::cv_status wait_for(Lock & lock, const std::chrono::duration<Rep, Period> & d) { vf_note_wait(d); return vf_cv_wait_for(this, lock.mutex()) ? std::cv_status::no_timeout : std::cv_status::timeout; }
+	std::cv_status wait_for(Lock & lock, const std::chrono::duration<Rep, Period> & d) { vf_note_wait(d); return vf_cv_wait_for_h(this, lock.mutex()) ? std::cv_status::no_timeout : std::cv_status::timeout; }
 	template <class Lock, class Clock, class Duration>
-	std::cv_status wait_until(Lock & lock, const std::chrono::time_point<Clock, Duration> &) { g_vf_wait_ns = -1; return vf_cv_wait_for(this, lock.mutex()) ? std::cv_status::no_timeout : std::cv_status::timeout; }
+	std::cv_status wait_until(Lock & lock, const std::chrono::time_point<Clock, Duration> &) { g_vf_wait_ns = -1; return vf_cv_wait_for_h(this, lock.mutex()) ? std::cv_status::no_timeout : std::cv_status::timeout; }
 	template <class Lock, class Clock, class Duration, class Predicate>
 	bool wait_until(Lock & lock, const std::chrono::time_point<Clock, Duration> &, Predicate pred) {
 		g_vf_wait_ns = -1;
 		while(! pred()) {
-			if(! vf_cv_wait_for(this, lock.mutex())) return pred();
+			if(! vf_cv_wait_for_h(this, lock.mutex())) return pred();
 		}
 		return true;
 	}
